@@ -108,6 +108,31 @@ def main(argv=None):
             return 0
         return 0
 
+    # ---------------- regression replays: scenarios of defects that were fixed must stay clean
+    regress_viol = []
+    rdir = os.path.join(VERIF, 'regress')
+    nreg = 0
+    if os.path.isdir(rdir):
+        for fn in sorted(os.listdir(rdir)):
+            if not fn.endswith('.json'):
+                continue
+            with open(os.path.join(rdir, fn)) as fh:
+                rp = json.load(fh)
+            if pid not in rp.get('applies_to', [rp.get('property')]):
+                continue
+            nreg += 1
+            v = runner.run_isolated(_examine_job, (pid, tier, rp['scenario']))
+            if v.get('outcome') in ('harness_error', 'harness_timeout'):
+                print('HARNESS-ERROR: regression replay %s: %s' % (fn, v.get('error')))
+                print(v.get('tb', ''))
+                return 2
+            bad = [x for x in v.get('violations', []) if findings.match(known, pid, x) is None]
+            if bad:
+                regress_viol.append((fn, bad))
+    for fn, bad in regress_viol:
+        print('violation (regression replay %s): %s | %s | %s' % (fn, bad[0]['oracle'], bad[0]['sig'], str(bad[0]['detail'])[:300]))
+        print('VIOLATION property=%s replay=%s' % (pid, os.path.join(rdir, fn)))
+
     n = a.runs if a.runs is not None else P.runs(tier)
     items = [(pid, tier, master, i) for i in range(n)]
     last = [0]
@@ -246,8 +271,9 @@ def main(argv=None):
         },
         'assumptions': list(P.assumptions),
         'wall_s': round(wall_s, 2),
-        'violations': len(new),
+        'violations': len(new) + len(regress_viol),
     }
+    doc['coverage']['regression_replays'] = nreg
     if getattr(P, 'exhaustive_per_world', False):
         doc['coverage']['exhaustive_per_world'] = True
     if not a.no_evidence:
@@ -263,8 +289,8 @@ def main(argv=None):
             print('HARNESS-ERROR: index=%d %s' % (it[3], v.get('error')))
             if v.get('tb'):
                 print(v['tb'][-1500:])
-        return 1 if new else 2
-    if new:
+        return 1 if (new or regress_viol) else 2
+    if new or regress_viol:
         return 1
     if evaluated == 0:
         print('HARNESS-ERROR: nothing evaluated')
